@@ -7,7 +7,11 @@ package main
 // run ids in every arrival order, sequentially and from goroutines released together (in that mode
 // every initialiser takes a moment, so that a non-atomic setupStepData shows); steps whose step data
 // is a pointer type or an interface type (`stepd-any`), with and without an initialiser (D65); and
-// `dcall`: CallableStep.Call on the step object itself with a native input, valid or constraint-violating.
+// `dcall`: CallableStep.Call on the step object itself with a native input, valid or constraint-violating;
+// signals REGISTERED UNDER A KEY THAT DIFFERS FROM THE SIGNAL'S OWN ID (a reusable signal definition registered as
+// "cancel"; two definitions registered under each other's ids): every lookup — CallableSchema.CallSignal, the
+// published SignalHandlers() / ToStepSchema() maps, the step's own CallSignal — goes by the registration key;
+// and `dsignal`: CallableStep.CallSignal on the step object itself with native data.
 // Case and observation syntax: coq/Interp/RunStep.v.
 
 import (
@@ -85,9 +89,13 @@ func c11MkStep[D any](p *c11Plugin, st *sx.Node, mk func(*c11Box) D, unbox func(
 	}
 	sigs := map[string]schema.CallableSignal{}
 	for _, s := range st.List[5].List {
-		sig := s.List[0].Str
+		sig := s.List[0].Str // the registration key: what callers name and what the log records
+		own := sig           // the signal's own IDValue
+		if len(s.List) > 2 {
+			own = s.List[2].Str
+		}
 		p.isoSig[id][sig] = buildScope(s.List[1])
-		sigs[sig] = schema.NewCallableSignal[D, any](sig, buildScope(s.List[1]), nil,
+		sigs[sig] = schema.NewCallableSignal[D, any](own, buildScope(s.List[1]), nil,
 			func(ctx context.Context, d D, in any) {
 				if r := c11RecOf(ctx); r != nil {
 					r.mu.Lock()
@@ -236,6 +244,20 @@ func runStepsCase(p *sx.Node) *sx.Node {
 			}
 			return
 		}
+		if c.Head() == "dsignal" {
+			// CallableStep.CallSignal on the step object itself, with NATIVE data
+			step, ok := plug.steps[c.List[2].Str]
+			if !ok || !c11Representable(c.List[4]) {
+				results[i] = sx.L(sx.A("bad"), sx.S("dsignal: unknown step or a value Go cannot represent"))
+				return
+			}
+			if err := step.CallSignal(ctx, c.List[1].Str, c.List[3].Str, valFromSx(c.List[4])); err != nil {
+				results[i] = sx.L(sx.A("err"), sx.A(c11Class(err)))
+			} else {
+				results[i] = sx.A("ok")
+			}
+			return
+		}
 		err := plug.callable.CallSignal(ctx, c.List[1].Str, c.List[2].Str, c.List[3].Str, valFromSx(c.List[4]))
 		if err != nil {
 			results[i] = sx.L(sx.A("err"), sx.A(c11Class(err)))
@@ -362,6 +384,9 @@ func c11IsoOf(plug *c11Plugin, c *sx.Node) *sx.Node {
 	if !ok {
 		return sx.L(sx.A("iso"), sx.A("nosig"))
 	}
+	if c.Head() == "dsignal" {
+		return sx.L(sx.A("iso"), c11Iso(func() (*sx.Node, error) { return unit(), ss.Validate(valFromSx(c.List[4])) }))
+	}
 	return sx.L(sx.A("iso"), c11Iso(func() (*sx.Node, error) {
 		r, err := ss.Unserialize(valFromSx(c.List[4]))
 		if err != nil {
@@ -381,7 +406,8 @@ type c11StepD struct {
 	input   *sx.Node
 	outs    [][2]*sx.Node // (id string node, scope)
 	sigs    [][2]*sx.Node
-	anyData bool // StepData = any instead of *c11Box
+	sigOwn  []string // the signals' own ids, parallel to sigs ("=" or missing: the registration key itself)
+	anyData bool     // StepData = any instead of *c11Box
 }
 
 func (s c11StepD) sx() *sx.Node {
@@ -389,8 +415,12 @@ func (s c11StepD) sx() *sx.Node {
 	for _, o := range s.outs {
 		outs.Append(sx.L(o[0], o[1]))
 	}
-	for _, g := range s.sigs {
-		sigs.Append(sx.L(g[0], g[1]))
+	for i, g := range s.sigs {
+		if i < len(s.sigOwn) && s.sigOwn[i] != "=" && s.sigOwn[i] != g[0].Str {
+			sigs.Append(sx.L(g[0], g[1], sx.S(s.sigOwn[i])))
+		} else {
+			sigs.Append(sx.L(g[0], g[1]))
+		}
 	}
 	head := "stepd"
 	if s.anyData {
@@ -430,6 +460,9 @@ func c11Call(run, step string, raw *sx.Node, outID string, outData *sx.Node) *sx
 }
 func c11Signal(run, step, sig string, raw *sx.Node) *sx.Node {
 	return sx.L(sx.A("signal"), sx.S(run), sx.S(step), sx.S(sig), raw)
+}
+func c11DSignal(run, step, sig string, native *sx.Node) *sx.Node {
+	return sx.L(sx.A("dsignal"), sx.S(run), sx.S(step), sx.S(sig), native)
 }
 func c11Direct(run, step string, native *sx.Node, outID string, outData *sx.Node) *sx.Node {
 	return sx.L(sx.A("dcall"), sx.S(run), sx.S(step), native, sx.S(outID), outData)
@@ -557,6 +590,23 @@ func c11GenPlugin(r *Rng) ([]c11StepD, int) {
 		for j := 0; j < r.Intn(3); j++ {
 			st.sigs = append(st.sigs, [2]*sx.Node{sx.S(c11SigIDs[j]), (&sgen{r: r}).scope(1)})
 		}
+		// the signals' own ids: the registration key (55%), one reusable definition's id for all (20%), ids that are
+		// the OTHER signal's key — with two signals a swap — (15%), the empty id (10%)
+		switch k := r.Intn(100); {
+		case k < 55:
+		case k < 75:
+			for range st.sigs {
+				st.sigOwn = append(st.sigOwn, "generic-signal")
+			}
+		case k < 90:
+			for j := range st.sigs {
+				st.sigOwn = append(st.sigOwn, c11SigIDs[(j+1)%len(c11SigIDs)])
+			}
+		default:
+			for range st.sigs {
+				st.sigOwn = append(st.sigOwn, "")
+			}
+		}
 		steps = append(steps, st)
 	}
 	return steps, depth
@@ -587,6 +637,30 @@ func c11GenCalls(r *Rng, steps []c11StepD, depth, n int) []*sx.Node {
 			}
 			if n := c11Norm(raw); n != nil {
 				raw = n
+			}
+			if len(st.sigOwn) > 0 && st.sigOwn[0] != "=" && r.Chance(12) {
+				// the name a caller must NOT use: the signal's own id (known only if it happens to be a key too)
+				sig = st.sigOwn[0]
+			}
+			if sid == st.id && r.Chance(25) {
+				// the step object's own CallSignal, with native data: as Unserialize made it / constraint-violating / mutated
+				nat := raw
+				if g := c11SigOf(st, sig); g != nil {
+					nat = c11Native(r, g, 2)
+					switch k := r.Intn(100); {
+					case k < 30:
+						if v := c11Violate(r, nat); v != nil {
+							nat = v
+						}
+					case k < 45:
+						nat = c11MutateNative(r, nat)
+					}
+				}
+				if n := c11Norm(nat); n != nil {
+					nat = n
+				}
+				calls = append(calls, c11DSignal(run, sid, sig, nat))
+				continue
 			}
 			calls = append(calls, c11Signal(run, sid, sig, raw))
 			continue
@@ -641,7 +715,26 @@ func c11GenCalls(r *Rng, steps []c11StepD, depth, n int) []*sx.Node {
 	return calls
 }
 
+// c11SigOf: the data scope registered under the key, nil if the step has no such key.
+func c11SigOf(st c11StepD, key string) *sx.Node {
+	for _, g := range st.sigs {
+		if g[0].Str == key {
+			return g[1]
+		}
+	}
+	return nil
+}
+
 // ---- the order sub-family: fixed small scopes, every arrival order ----
+
+// c11OrderStepsOwn: the order plugin with the two signals' own ids set (registration keys stay "cancel" / "pause").
+func c11OrderStepsOwn(hasInit, anyData bool, own ...string) []c11StepD {
+	steps := c11OrderSteps(hasInit, anyData)
+	for i := range steps {
+		steps[i].sigOwn = own
+	}
+	return steps
+}
 
 func c11OrderSteps(hasInit bool, anyData ...bool) []c11StepD {
 	in := dScope("In", dObject("In", false, propD{name: "a", t: dInt(ip(0), nil, nil), required: true},
@@ -670,6 +763,12 @@ func c11OrderOp(kind string, run, step string) *sx.Node {
 		return c11Signal(run, step, "cancel", vM(tAnyMap, vS("x"), vS("too long")))
 	case "nosig":
 		return c11Signal(run, step, "nosuchsignal", vM(tAnyMap))
+	case "dcancel": // the step object's own CallSignal with valid native data
+		return c11DSignal(run, step, "cancel", vM(tStrMap, vS("x"), vS("s")))
+	case "baddcancel": // ... with native data of the right Go type whose string is too long
+		return c11DSignal(run, step, "cancel", vM(tStrMap, vS("x"), vS("too long")))
+	case "dnosig":
+		return c11DSignal(run, step, "generic-signal", vM(tStrMap))
 	case "dcall": // the step object called directly with a valid native input
 		return c11Direct(run, step, vM(tStrMap, vS("a"), vI("i64", 1), vS("s"), vS("abc")), "success", c11OkOut)
 	case "baddcall": // ... with a correctly TYPED native input whose integer is out of range
@@ -709,6 +808,7 @@ func c11GenOrder(r *Rng, tier string, emit func(*sx.Node)) {
 		{{"badsig", "r1", "step1"}, {"call", "r1", "step1"}, {"cancel", "r2", "step1"}, {"badcall", "r2", "step1"}},
 		{{"call", "r1", "step1"}, {"call", "r1", "step1"}, {"cancel", "r1", "step1"}},
 		{{"dcall", "r1", "step1"}, {"cancel", "r1", "step1"}, {"baddcall", "r1", "step1"}, {"shortdcall", "r2", "step1"}},
+		{{"dcancel", "r1", "step1"}, {"call", "r1", "step1"}, {"baddcancel", "r2", "step1"}, {"pause", "r1", "step1"}, {"dnosig", "r1", "step1"}},
 	}
 	// (initialiser?, StepData = any?) per set: a pointer-typed and an interface-typed step data, with and
 	// without an initialiser (interface-typed without initialiser: the nil interface reaches the handlers, D65)
@@ -720,10 +820,13 @@ func c11GenOrder(r *Rng, tier string, emit func(*sx.Node)) {
 		{{true, false}},
 		{{true, false}, {true, true}, {false, true}},
 		{{true, false}, {false, true}},
+		{{true, false}, {false, true}},
 	}
+	// the signals' own ids per set (nil / "=": the registration keys): a reusable definition's id, swapped ids, no id
+	owns := [][]string{nil, {"generic-signal", "generic-signal"}, {"pause", "cancel"}, nil, {"generic-signal", "="}, {"", ""}, {"pause", "cancel"}}
 	for si, set := range sets {
 		for _, vr := range variants[si] {
-			steps := c11OrderSteps(vr.hasInit, vr.anyData)
+			steps := c11OrderStepsOwn(vr.hasInit, vr.anyData, owns[si]...)
 			permutations(len(set), func(idx []int) {
 				var calls []*sx.Node
 				for _, i := range idx {
@@ -739,9 +842,9 @@ func c11GenOrder(r *Rng, tier string, emit func(*sx.Node)) {
 	if tier == "thorough" {
 		n = 1500
 	}
-	kinds := []string{"call", "call", "cancel", "pause", "cancel", "badcall", "badsig", "nosig", "dcall", "baddcall"}
+	kinds := []string{"call", "call", "cancel", "pause", "cancel", "badcall", "badsig", "nosig", "dcall", "baddcall", "dcancel", "baddcancel"}
 	for i := 0; i < n; i++ {
-		steps := c11OrderSteps(r.Chance(85), r.Chance(30))
+		steps := c11OrderStepsOwn(r.Chance(85), r.Chance(30), pick(r, [][]string{nil, nil, {"generic-signal", "generic-signal"}, {"pause", "cancel"}})...)
 		var calls []*sx.Node
 		for j := 0; j < 4+r.Intn(13); j++ {
 			calls = append(calls, c11OrderOp(pick(r, kinds), pick(r, c11Runs), pick(r, []string{"step1", "step1", "step2"})))
@@ -764,6 +867,13 @@ func init() {
 			// the step's own re-validation: a typed native input that breaks a constraint, called directly
 			emit(c11Case(steps, "seq", []*sx.Node{c11OrderOp("baddcall", "r1", "step1"), c11OrderOp("shortdcall", "r1", "step1"),
 				c11OrderOp("dcall", "r1", "step1")}))
+			// signals registered under keys that are not their own ids: by key through the plugin and on the step object;
+			// the own id is NOT a name ("generic-signal"), or names the other handler (swapped)
+			for _, own := range [][]string{{"generic-signal", "generic-signal"}, {"pause", "cancel"}} {
+				emit(c11Case(c11OrderStepsOwn(true, false, own...), "seq", []*sx.Node{c11OrderOp("cancel", "r1", "step1"),
+					c11OrderOp("dcancel", "r1", "step1"), c11OrderOp("pause", "r2", "step1"),
+					c11Signal("r1", "step1", "generic-signal", vM(tAnyMap)), c11OrderOp("dnosig", "r1", "step1")}))
+			}
 			c11GenOrder(r, tier, emit)
 			n := 220
 			if tier == "thorough" {
